@@ -308,16 +308,14 @@ pub fn build_op(
         UOp::MapMemo { m } => s
             .map_memo_by(move |r: Rec| f_memo(f_memo_key(&r, m)), move |r: &Rec| f_memo_key(r, m), 16)
             .boxed(),
-        UOp::SplitZip { m, filter_left } => {
+        UOp::SplitZip { m, m2 } => {
             let mut parts = s.split(2).into_iter();
             let a = parts.next().unwrap();
             let b = parts.next().unwrap();
-            let keep = move |r: &Rec| r.v.rem_euclid(m) != 0;
-            if filter_left {
-                a.filter(keep).zip(b).map(|_| f_zip_anon()).boxed()
-            } else {
-                a.zip(b.filter(keep)).map(|_| f_zip_anon()).boxed()
-            }
+            a.filter(move |r: &Rec| r.v.rem_euclid(m) != 0)
+                .zip(b.filter(move |r: &Rec| r.v.rem_euclid(m2) != 1))
+                .map(|_| f_zip_anon())
+                .boxed()
         }
         UOp::Replay { rounds, body, stop_m, stop_r } => {
             let init = LState::default();
